@@ -171,15 +171,9 @@ func (e *Engine) f2i(x *Term, w int) *Term {
 		r := tt.FToSBV(tt.FToFP(x, F64Sort), 64)
 		return tt.Extract(r, w-1, 0)
 	}
-	// float64(i) for an i of at most 32 bits converts back exactly
-	if x.Op == OSBVToFP && x.Sort.K == SF64 {
-		a := x.Args[0]
-		if a.Sort.W <= 32 {
-			return tt.Extract(tt.SExt(a, 64), w-1, 0)
-		}
-		if a.Op == OSExt && a.Args[0].Sort.W <= 32 {
-			return tt.Extract(a, w-1, 0)
-		}
+	// float64(i) converts back exactly when |i| < 2^53 can be seen from the shape of the term
+	if x.Op == OSBVToFP && x.Sort.K == SF64 && signedBits(x.Args[0]) <= 53 {
+		return tt.Extract(tt.SExt(x.Args[0], 64), w-1, 0)
 	}
 	x64 := tt.FToFP(x, F64Sort)
 	lo := tt.F64Const(-9.223372036854775808e18)
@@ -187,6 +181,59 @@ func (e *Engine) f2i(x *Term, w int) *Term {
 	inRange := tt.And(tt.FLe(lo, x64), tt.FLt(x64, hi)) // false for NaN
 	r := tt.Ite(inRange, tt.FToSBV(x64, 64), tt.BVConst(0x8000000000000000, 64))
 	return tt.Extract(r, w-1, 0)
+}
+
+// signedBits bounds the number of bits needed to hold t as a signed integer (a cheap syntactic bound).
+func signedBits(t *Term) int {
+	if t.Sort.K != SBV {
+		return 64
+	}
+	w := t.Sort.W
+	r := w
+	switch t.Op {
+	case OConst:
+		v := t.Int()
+		if v < 0 {
+			v = -v - 1
+		}
+		r = 1
+		for v > 0 {
+			r++
+			v >>= 1
+		}
+	case OZExt:
+		r = signedBits0(t.Args[0]) + 1
+	case OSExt:
+		r = signedBits(t.Args[0])
+	case ONeg:
+		r = signedBits(t.Args[0]) + 1
+	case OAdd, OSub:
+		a, b := signedBits(t.Args[0]), signedBits(t.Args[1])
+		if b > a {
+			a = b
+		}
+		r = a + 1
+	case OMul:
+		r = signedBits(t.Args[0]) + signedBits(t.Args[1])
+	case OIte:
+		a, b := signedBits(t.Args[1]), signedBits(t.Args[2])
+		if b > a {
+			a = b
+		}
+		r = a
+	}
+	if r > w {
+		r = w
+	}
+	return r
+}
+
+// signedBits0: bits of t read as an unsigned quantity.
+func signedBits0(t *Term) int {
+	if t.Op == OZExt {
+		return signedBits0(t.Args[0])
+	}
+	return t.Sort.W
 }
 
 func (e *Engine) conv(tDst, tSrc types.Type, x Value) Value {
